@@ -7,6 +7,7 @@ import (
 	"bytes"
 	"fmt"
 	"io"
+	"math/rand/v2"
 	"net"
 	"net/http"
 	"sort"
@@ -40,7 +41,12 @@ func metadataEndpoint(url string) map[string]any {
 	return map[string]any{"url": url, "disable_issuer_identifier_verification": true, "http_cache": map[string]any{"enabled": false}}
 }
 
+// readLimit: buffer_limit.read of the decision service (a documented option; default 4KB, which net/http turns into a
+// limit of 8 KiB for request line + headers): credentials of 64 KiB in a header, cookie or query must reach the authenticators.
+const readLimit = 256 << 10
+
 func prototypes(c *config.Configuration, srv string) {
+	c.Serve.Decision.BufferLimit.Read = readLimit
 	p := c.Prototypes
 	for _, d := range protos {
 		base := srv
@@ -58,7 +64,7 @@ func prototypes(c *config.Configuration, srv string) {
 		case "jwt":
 			m = config.Mechanism{ID: d.ID, Type: "jwt", Config: config.MechanismConfig{
 				"jwks_endpoint": map[string]any{"url": base + "/jwks/{{ .TokenIssuer }}"},
-				"assertions":    map[string]any{"issuers": []any{issOK, iss500, issGarbage, issDrop}, "audience": []any{audOK}},
+				"assertions":    map[string]any{"issuers": append([]any{issOK, iss500, issGarbage, issDrop}, statusIssuers()...), "audience": []any{audOK}},
 			}}
 			if d.Meta { // the issuer (and with it the trusted issuer) and the JWKS endpoint come from the metadata document
 				m.Config = config.MechanismConfig{
@@ -277,6 +283,36 @@ type c04Case struct {
 	Observed observed   `json:"observed"`
 	// OtherEntry: what the HTTP decision service answered to the same request (cases of the Envoy entry point)
 	OtherEntry *observed `json:"observed_at_http_decision_service,omitempty"`
+	// Sequence: the request was part of the serial request sequence (order-sensitive part of the workload)
+	Sequence *seqView `json:"sequence,omitempty"`
+}
+
+// seqView: where in the serial sequence a request was sent, and what the same instances were asked right before it.
+type seqView struct {
+	Step      int      `json:"step"`
+	Preceding []string `json:"preceding_requests"` // oldest first: "<chain> <- <request>"
+}
+
+// sequence is the state of the order-sensitive part of the workload: requests sent one after the other to the same
+// instances; the model has no memory, so every decision must be the one the request would get from a fresh process.
+type sequence struct {
+	step    int
+	history []string
+	last    map[string]string // authenticator type -> oracle class of the request it saw last
+}
+
+const historyKept = 12
+
+func (s *sequence) view() *seqView {
+	return &seqView{Step: s.step, Preceding: append([]string{}, s.history...)}
+}
+
+func (s *sequence) done(c chain, lr lreq) {
+	s.step++
+	s.history = append(s.history, c.key()+" <- "+lr.shapeKey())
+	if len(s.history) > historyKept {
+		s.history = s.history[1:]
+	}
 }
 
 func (o observed) ids() []string {
@@ -349,23 +385,23 @@ func signature(c chain, views []stepView, outs []outcome, o observed) (string, s
 	case bestK == len(best.Executed) && len(ids) > len(best.Executed):
 		i := len(best.Executed) - 1
 		if best.Allow {
-			return fmt.Sprintf("valid-credentials-not-accepted:%s:%s", ty(i), views[i].Seen),
-				fmt.Sprintf("#%d %s must accept %s but the chain went on", i, c.Elems[i].Proto, views[i].Seen)
+			return fmt.Sprintf("valid-credentials-not-accepted:%s:%s", ty(i), views[i].what()),
+				fmt.Sprintf("#%d %s must accept %s but the chain went on", i, c.Elems[i].Proto, views[i].what())
 		}
-		return fmt.Sprintf("fallback-after-rejection:%s:%s", ty(i), views[i].Seen),
-			fmt.Sprintf("#%d %s found %s, does not allow fallback (%s), but %s was consulted afterwards", i, c.Elems[i].Proto, views[i].Seen, fbDesc(i), ids[i+1])
+		return fmt.Sprintf("fallback-after-rejection:%s:%s", ty(i), views[i].what()),
+			fmt.Sprintf("#%d %s found %s, does not allow fallback (%s), but %s was consulted afterwards", i, c.Elems[i].Proto, views[i].what(), fbDesc(i), ids[i+1])
 	case bestK == len(ids) && len(ids) < len(best.Executed):
 		i := len(ids) - 1
 		v := views[i]
 		switch {
 		case o.Trace[i].Outcome == "ok":
-			return fmt.Sprintf("unexpected-acceptance:%s:%s", ty(i), v.Seen), fmt.Sprintf("#%d %s accepted %s", i, c.Elems[i].Proto, v.Seen)
+			return fmt.Sprintf("unexpected-acceptance:%s:%s", ty(i), v.what()), fmt.Sprintf("#%d %s accepted %s", i, c.Elems[i].Proto, v.what())
 		case v.Verdict == vNone:
-			return fmt.Sprintf("no-fallback-on-missing-credentials:%s:%s", ty(i), v.Seen),
-				fmt.Sprintf("#%d %s has no credentials of its kind (%s) but the next authenticator %s was not consulted", i, c.Elems[i].Proto, v.Seen, best.Executed[i+1])
+			return fmt.Sprintf("no-fallback-on-missing-credentials:%s:%s", ty(i), v.what()),
+				fmt.Sprintf("#%d %s has no credentials of its kind (%s) but the next authenticator %s was not consulted", i, c.Elems[i].Proto, v.what(), best.Executed[i+1])
 		case v.Verdict == vReject && c.Elems[i].fallbackAllowed():
 			return fmt.Sprintf("fallback-opt-in-ignored:%s:%s", ty(i), fbDesc(i)),
-				fmt.Sprintf("#%d %s rejected %s and allows fallback (%s) but %s was not consulted", i, c.Elems[i].Proto, v.Seen, fbDesc(i), best.Executed[i+1])
+				fmt.Sprintf("#%d %s rejected %s and allows fallback (%s) but %s was not consulted", i, c.Elems[i].Proto, v.what(), fbDesc(i), best.Executed[i+1])
 		}
 		return "mismatch", "chain stopped earlier than any allowed behaviour"
 	case bestK == len(ids) && len(ids) == len(best.Executed):
@@ -373,9 +409,9 @@ func signature(c chain, views []stepView, outs []outcome, o observed) (string, s
 		okObs := o.Status == http.StatusOK
 		switch {
 		case best.Allow && !okObs:
-			return fmt.Sprintf("valid-credentials-not-accepted:%s:%s", ty(i), views[i].Seen), fmt.Sprintf("#%d %s must accept %s; status %d", i, c.Elems[i].Proto, views[i].Seen, o.Status)
+			return fmt.Sprintf("valid-credentials-not-accepted:%s:%s", ty(i), views[i].what()), fmt.Sprintf("#%d %s must accept %s; status %d", i, c.Elems[i].Proto, views[i].what(), o.Status)
 		case !best.Allow && okObs:
-			return fmt.Sprintf("unexpected-acceptance:%s:%s", ty(i), views[i].Seen), fmt.Sprintf("#%d %s accepted %s (subject %q)", i, c.Elems[i].Proto, views[i].Seen, o.Sub)
+			return fmt.Sprintf("unexpected-acceptance:%s:%s", ty(i), views[i].what()), fmt.Sprintf("#%d %s accepted %s (subject %q)", i, c.Elems[i].Proto, views[i].what(), o.Sub)
 		case best.Allow && o.Sub != best.Sub:
 			return fmt.Sprintf("wrong-subject:%s", ty(i)), fmt.Sprintf("subject %q instead of %q", o.Sub, best.Sub)
 		}
@@ -411,13 +447,19 @@ func TestC04(t *testing.T) {
 		"reference tokens for issuer-templated endpoints; credentials of a foreign kind; two credentials at once; every configured " +
 		"location header/query/cookie/body; one or several blanks between scheme and credentials; body credentials form or JSON encoded with Content-Type spellings: " +
 		"parameters, parameter casing, malformed parameters, header sent twice, other casing of the media type; credential-free noise: an unparsable unrelated query parameter, " +
-		"the credential cookie repeated empty, an unrelated malformed cookie pair before/after the credential cookies). Oracle: documentation-based " +
+		"the credential cookie repeated empty, an unrelated malformed cookie pair before/after the credential cookies); remote systems (identity, introspection, JWKS, metadata endpoint) answering " +
+		"presented credentials with the status codes 400, 401, 403, 404, 409, 422, 429, 500, 502, 503; credential values (valid and rejected ones, every kind) padded to just above 4 KiB, 8 KiB, " +
+		"64 KiB in every location. Order-sensitive part, run first against the fresh instances: for a sub-pool of chains in which a rejection must end the authentication, the whole class catalogue " +
+		"of every authenticator (every valid / rejected / endpoint-failing / malformed class, a status code, one value of every foreign kind) plus the random mix, sent one request at a time in " +
+		"seeded random order, twice in two orders, judged by the same per-request model (what an instance was asked before must not matter). Oracle: documentation-based " +
 		"3-way classification per authenticator + chain semantics of the statement; compared with status, echoed subject and the recorded sequence of executed authenticators. " +
 		"A case is non-trivial when the model makes at least one fallback decision (an authenticator that does not accept is followed by another one).")
 	r.Assume("a cookie pair that is not well-formed (RFC 6265) does not hide the well-formed pairs of the same Cookie header (net/http's Request.Cookie, which both entry points use, skips it)",
 		"an issuer-templated introspection/JWKS endpoint exists for the issuer of the installation only; a bearer token that names no issuer was found and cannot be validated (never: no credentials)",
 		"the Envoy client of the kit carries one value per header name: of a Content-Type sent twice the first line",
 		"test JWKS/introspection/identity endpoints are loopback httptest servers answering as a function of the received credential",
+		"a remote system answering presented credentials with a status code outside 2xx (whatever the code) did not validate them: found and not accepted, never 'no credentials'",
+		"the statement knows no size limit for credentials; buffer_limit.read of the decision services is set to 256KB (documented option) so that a 64 KiB header, cookie or query value reaches the authenticators",
 		"the introspection test server reports valid JWTs as active (it stands for the issuer of these tokens), everything unknown as inactive",
 		"an HTTP answer 200 of the decision service = authenticated; any other status = authentication failed (401/5xx not distinguished by the statement)",
 		"credential shapes the statement leaves open (undecodable/unstructured Basic value, non-JWT for jwt, blank value) are only required never to be accepted by that authenticator",
@@ -464,6 +506,32 @@ func TestC04(t *testing.T) {
 	r.Set("requests_per_chain_target", nReq)
 
 	st := &stats{classes: map[string]map[string]bool{}}
+	newClient := func() *http.Client {
+		return &http.Client{Timeout: 30 * time.Second,
+			CheckRedirect: func(*http.Request, []*http.Request) error { return http.ErrUseLastResponse },
+			Transport:     &http.Transport{MaxIdleConnsPerHost: 4, DisableCompression: true, DialContext: (&net.Dialer{Timeout: 3 * time.Second}).DialContext}}
+	}
+
+	// order-sensitive part, first (the instances are fresh): the requests of a sub-pool of chains, one after the other in
+	// seeded random order (twice, in two orders), to the same two instances
+	func() {
+		cl := newClient()
+		defer cl.CloseIdleConnections()
+		eps := []entry{{entryHTTP, func(w wire) observed { return send(cl, a, probes, w) }}}
+		ev, err := app.NewEnvoy(ea.Addr())
+		if err != nil {
+			r.Inconclusive("cannot create envoy client: " + err.Error())
+			return
+		}
+		defer ev.Close()
+		eps = append(eps, entry{entryEnvoy, func(w wire) observed { return sendEnvoy(ev, eprobes, w) }})
+		pool := sequencePool(r.Stream("sequence-pool"), chains, r.Pick(24, 150))
+		r.Set("sequence_chains", len(pool))
+		t0 := time.Now()
+		runSequence(r, st, eps, mt, pool, 2)
+		r.Set("sequence_wall_s", time.Since(t0).Seconds())
+	}()
+
 	typeChainsSeen := sync.Map{}
 	var wg sync.WaitGroup
 	ch := make(chan chain, 64)
@@ -471,9 +539,7 @@ func TestC04(t *testing.T) {
 		wg.Add(1)
 		go func() {
 			defer wg.Done()
-			cl := &http.Client{Timeout: 30 * time.Second,
-				CheckRedirect: func(*http.Request, []*http.Request) error { return http.ErrUseLastResponse },
-				Transport:     &http.Transport{MaxIdleConnsPerHost: 4, DisableCompression: true, DialContext: (&net.Dialer{Timeout: 3 * time.Second}).DialContext}}
+			cl := newClient()
 			defer cl.CloseIdleConnections()
 			eps := []entry{{entryHTTP, func(w wire) observed { return send(cl, a, probes, w) }}}
 			if ev, err := app.NewEnvoy(ea.Addr()); err != nil {
@@ -486,7 +552,7 @@ func TestC04(t *testing.T) {
 				typeChainsSeen.Store(c.typeKey(), true)
 				g := &reqGen{rng: r.Stream("req|" + c.key()), m: mt}
 				for _, lr := range g.requests(c, nReq) {
-					runCase(r, st, eps, c, lr)
+					runCase(r, st, eps, c, lr, nil)
 				}
 			}
 		}()
@@ -509,6 +575,39 @@ func TestC04(t *testing.T) {
 	}
 	r.Set("credential_classes_seen_per_type", cls)
 	r.Set("endpoint_calls", map[string]int64{"jwks": srv.calls.jwks.Load(), "introspection": srv.calls.introspect.Load(), "introspection_per_tenant": srv.calls.introspectTenant.Load(), "identity": srv.calls.identity.Load(), "metadata": srv.calls.metadata.Load()})
+
+	answers := srv.statusAnswers()
+	r.Set("endpoint_status_answers", answers)
+	for _, code := range statusCodes {
+		for _, sys := range []string{"identity", "introspection", "jwks"} {
+			k := fmt.Sprintf("%s_%d", sys, code)
+			r.Require("endpoint_answered_"+k, answers[k], 2)
+		}
+		k := fmt.Sprintf("remote_status_code_%d", code)
+		r.Require(k, r.Counter(k), 10)
+	}
+	for sys, min := range map[string]int64{"identity": 50, "introspection": 50, "jwks": 50, "metadata": 8} {
+		r.Require("remote_status_of_"+sys, r.Counter("remote_status_of_"+sys), min)
+	}
+	r.Require("remote_status_rejections_before_another_authenticator", r.Counter("remote_status_rejections_before_another_authenticator"), 100)
+	for size := range sizes {
+		for _, loc := range []string{"header", "cookie", "query", "body"} {
+			k := "credential_size_" + size + "_in_" + loc
+			r.Require(k, r.Counter(k), 5)
+		}
+		for _, v := range []string{"accept", "reject"} {
+			k := "credential_size_" + size + "_" + v
+			r.Require(k, r.Counter(k), 20)
+		}
+	}
+	r.Require("sequence_steps", r.Counter("sequence_steps"), 500)
+	for _, t := range []string{"basic", "jwt", "intro", "gen"} {
+		for _, tr := range []string{"none_then_reject", "reject_then_none", "reject_then_reject", "reject_then_accept", "accept_then_reject"} {
+			k := "sequence_" + heimdallType[t] + "_" + tr
+			r.Require(k, r.Counter(k), 3)
+		}
+	}
+	r.Require("sequence_jwt_ambiguous_then_reject", r.Counter("sequence_jwt_ambiguous_then_reject"), 3)
 
 	total := r.Counter("answer_authenticated") + r.Counter("answer_failed")
 	r.Count("requests_with_chunked_body", int(chunkedBodies.Load()))
@@ -545,7 +644,27 @@ func TestC04(t *testing.T) {
 	r.End()
 }
 
-func runCase(r *core.Run, st *stats, eps []entry, c chain, lr lreq) {
+// remoteSystem: the endpoint that answers with the status code a credential of class cls (kind k) names, when an
+// authenticator of prototype p presents it ("" = it does not get that far, or asks somebody else).
+func remoteSystem(p *protoDef, k, cls string) (string, int) {
+	ep, code, ok := statusOf(cls)
+	switch {
+	case !ok || p.Down:
+	case p.Type == "gen" && k == "sess" && ep == "http":
+		return "identity", code
+	case p.Type == "intro" && k == "opaque" && ep == "http" && p.Tpl == "":
+		return "introspection", code
+	case p.Type == "jwt" && k == "jwt" && ep == "jwkshttp":
+		return "jwks", code
+	case (p.Type == "jwt" || p.Type == "intro") && p.Meta && k == "jwt" && ep == "metahttp":
+		return "metadata", code
+	}
+	return "", 0
+}
+
+// runCase sends one request to every entry point and compares the answers with the model. seq != nil: the request is a
+// step of the serial sequence.
+func runCase(r *core.Run, st *stats, eps []entry, c chain, lr lreq, seq *sequence) {
 	w := lr.wire("/" + c.ID)
 	views, outs := model(c, lr)
 	o := eps[0].send(w)
@@ -570,7 +689,24 @@ func runCase(r *core.Run, st *stats, eps []entry, c chain, lr lreq) {
 				r.Count("class_group_"+tn+"_"+v.Seen, 1)
 			}
 			if v.Slot != "" {
-				r.Count("location_"+tn+"_"+map[byte]string{'H': "header", 'C': "cookie", 'Q': "query", 'B': "body"}[v.Slot[0]], 1)
+				loc := map[byte]string{'H': "header", 'C': "cookie", 'Q': "query", 'B': "body"}[v.Slot[0]]
+				r.Count("location_"+tn+"_"+loc, 1)
+				if v.Size != "" {
+					r.Count("credential_size_"+v.Size+"_"+tn+"_"+v.Verdict.String(), 1)
+					r.Count("credential_size_"+v.Size+"_"+v.Verdict.String(), 1)
+					r.Count("credential_size_"+v.Size+"_in_"+loc, 1)
+				}
+				if it, _ := lr.at(v.Slot); v.Verdict == vReject {
+					if sys, code := remoteSystem(p, it.Kind, it.Class); sys != "" {
+						r.Count(fmt.Sprintf("remote_status_%s_%s_%d", tn, sys, code), 1)
+						r.Count("remote_status_of_"+sys, 1)
+						r.Count(fmt.Sprintf("remote_status_code_%d", code), 1)
+						r.Count("remote_status_rejections", 1)
+						if i < len(c.Elems)-1 && !c.Elems[i].fallbackAllowed() {
+							r.Count("remote_status_rejections_before_another_authenticator", 1)
+						}
+					}
+				}
 				if it, _ := lr.at(v.Slot); it.Sep != "" {
 					r.Count("header_credentials_with_several_blanks_after_scheme_"+v.Verdict.String(), 1)
 				}
@@ -587,6 +723,13 @@ func runCase(r *core.Run, st *stats, eps []entry, c chain, lr lreq) {
 		}
 		if v.Verdict != vAccept && i < len(c.Elems)-1 {
 			nontrivial = true
+		}
+		if seq != nil {
+			// what an authenticator of this type is asked to judge right after what (first reading of open shapes)
+			if prev := seq.last[tn]; prev != "" {
+				r.Count("sequence_"+tn+"_"+prev+"_then_"+v.Verdict.String(), 1)
+			}
+			seq.last[tn] = v.Verdict.String()
 		}
 		cont := i < len(prim.Executed)-1
 		switch {
@@ -613,6 +756,10 @@ func runCase(r *core.Run, st *stats, eps []entry, c chain, lr lreq) {
 		r.Count("cases_with_open_classification", 1)
 	}
 	r.Count("recipe_"+lr.Recipe, 1)
+	if seq != nil {
+		r.Count("sequence_steps", 1)
+		defer seq.done(c, lr)
+	}
 	if lr.hasBodyItems() {
 		ct := lr.CT
 		if ct == "" {
@@ -705,7 +852,55 @@ func runCase(r *core.Run, st *stats, eps []entry, c chain, lr lreq) {
 				sig += ":" + ep.Name + "-only" // the HTTP decision service behaves as the statement says for this request
 			}
 		}
-		r.Violation(sig, fmt.Sprintf("%s: chain %s, request %s%s: %s (status %d, subject %q, ran %v)", ep.Name, c.key(), lr.shapeKey(), noiseNote(w), what, o.Status, o.Sub, o.ids()), cs)
+		where := ep.Name
+		if seq != nil {
+			cs.Sequence = seq.view()
+			where = fmt.Sprintf("%s, step %d of the serial request sequence", ep.Name, seq.step)
+		}
+		r.Violation(sig, fmt.Sprintf("%s: chain %s, request %s%s: %s (status %d, subject %q, ran %v)", where, c.key(), lr.shapeKey(), noiseNote(w), what, o.Status, o.Sub, o.ids()), cs)
+	}
+}
+
+// sequencePool: n chains in which the order of the authenticators matters most: a configurable authenticator without
+// fallback on error is followed by another authenticator.
+func sequencePool(rng *rand.Rand, chains []chain, n int) []chain {
+	var cand []chain
+	for _, c := range chains {
+		for i, e := range c.Elems {
+			if i < len(c.Elems)-1 && e.configurable() && !e.fallbackAllowed() {
+				cand = append(cand, c)
+				break
+			}
+		}
+	}
+	rng.Shuffle(len(cand), func(i, j int) { cand[i], cand[j] = cand[j], cand[i] })
+	if len(cand) > n {
+		cand = cand[:n]
+	}
+	return cand
+}
+
+// runSequence sends the requests of the chains one at a time, interleaved in seeded random order (passes times, each in
+// an order of its own). Every answer is judged by the per-request model: what an instance was asked before must not matter.
+func runSequence(r *core.Run, st *stats, eps []entry, mt *minter, chains []chain, passes int) {
+	type step struct {
+		c  chain
+		lr lreq
+	}
+	var steps []step
+	for _, c := range chains {
+		g := &reqGen{rng: r.Stream("sequence|" + c.key()), m: mt}
+		for _, lr := range append(g.hostile(c), g.requests(c, 8)...) {
+			steps = append(steps, step{c, lr})
+		}
+	}
+	rng := r.Stream("sequence-order")
+	seq := &sequence{last: map[string]string{}}
+	for p := 0; p < passes; p++ {
+		rng.Shuffle(len(steps), func(i, j int) { steps[i], steps[j] = steps[j], steps[i] })
+		for _, s := range steps {
+			runCase(r, st, eps, s.c, s.lr, seq)
+		}
 	}
 }
 
